@@ -197,6 +197,7 @@ func ruleC20(r *Report) {
 
 	checkAtomicSections(r, p, idpFns, guard)
 	checkStaleWriteBack(r, p, idpFns, guard)
+	safely(r, func() { checkStoreOpsAtomic(r, p, la, idpFns, guard) })
 	order := map[string]map[string]string{} // held -> acquired -> where
 	for _, fn := range idpFns {
 		f := la.Facts(fn)
@@ -737,3 +738,93 @@ func checkStaleWriteBack(r *Report, p *Prog, fns []*ssa.Function, guard map[stri
 		}
 	}
 }
+
+// checkStoreOpsAtomic (C20.atomic): every method that implements the bundled Store interface is one critical section
+// over the store's guard: on no path does it acquire a guard mutex twice (directly or through a callee that takes and
+// releases it itself), and it acquires none inside a loop. A List that visits lock-striped partitions one lock at a
+// time returns a view no single instant ever had; a Put that checks under one acquisition and writes under another is a
+// check-then-act.
+func checkStoreOpsAtomic(r *Report, p *Prog, la *LockAnalysis, fns []*ssa.Function, guard map[string]guardEntry) {
+	rule := "C20.atomic"
+	guardLocks := map[string]bool{}
+	for _, g := range guard {
+		guardLocks[g.Mutex] = true
+	}
+	storeIface := p.NamedType("samlidp", "Store")
+	if storeIface == nil {
+		panic(unresolved{"type samlidp.Store"})
+	}
+	it, _ := storeIface.Underlying().(*types.Interface)
+	if it == nil {
+		panic(unresolved{"samlidp.Store is not an interface"})
+	}
+	n := 0
+	for _, fn := range fns {
+		if fn.Signature.Recv() == nil || !p.InLibrary(fn) || fn.Object() == nil {
+			continue
+		}
+		isOp := false
+		for i := 0; i < it.NumMethods(); i++ {
+			if it.Method(i).Name() == fn.Name() && types.Implements(fn.Signature.Recv().Type(), it) {
+				isOp = true
+			}
+		}
+		if !isOp {
+			continue
+		}
+		// acquisition sites of guard mutexes: direct Lock/RLock calls and calls of functions that acquire one themselves
+		type site struct {
+			in   ssa.Instruction
+			lock string
+		}
+		var sites []site
+		for _, b := range fn.Blocks {
+			for _, in := range b.Instrs {
+				ci, ok := in.(ssa.CallInstruction)
+				if !ok {
+					continue
+				}
+				if _, isDefer := in.(*ssa.Defer); isDefer {
+					continue
+				}
+				if op, ok := lockOpOf(ci.Common()); ok {
+					if op.Acquire && guardLocks[op.Lock] {
+						sites = append(sites, site{in, op.Lock})
+					}
+					continue
+				}
+				for _, callee := range la.Callees(ci) {
+					for l := range la.Summary(callee) {
+						if guardLocks[l] {
+							sites = append(sites, site{in, l})
+						}
+					}
+				}
+			}
+		}
+		if len(sites) == 0 {
+			continue
+		}
+		n++
+		r.Fn(p.FnName(fn))
+		cons := fmt.Sprintf("%s: the store operation is one critical section", p.FnName(fn))
+		bad := ""
+		for i, s1 := range sites {
+			if inCycle(s1.in.Block()) {
+				bad = "the guard " + s1.lock + " is acquired inside a loop (" + p.InstrPos(s1.in) + "): the operation is a sequence of critical sections, and its result mixes states of different instants"
+			}
+			for _, s2 := range sites[i+1:] {
+				if s1.lock == s2.lock && s1.in != s2.in && (s1.in.Block() == s2.in.Block() || blockReaches(s1.in.Block(), s2.in.Block()) || blockReaches(s2.in.Block(), s1.in.Block())) {
+					bad = firstNonEmpty(bad, "the guard "+s1.lock+" is acquired at "+p.InstrPos(s1.in)+" and again at "+p.InstrPos(s2.in)+" on one path: another request can run between the two critical sections")
+				}
+			}
+		}
+		r.Check(bad == "", rule, cons, p.Pos(fn.Pos()), fmt.Sprintf("%d acquisition site(s), none in a loop, no two on one path", len(sites)), bad)
+	}
+	if n == 0 {
+		panic(unresolved{"role: Store implementation methods that take a guard mutex"})
+	}
+}
+
+// inCycle: the block lies on a cycle of the control-flow graph.
+func inCycle(b *ssa.BasicBlock) bool { return blockReaches(b, b) }
